@@ -38,8 +38,8 @@ ASSUMPTIONS = [
 ]
 
 OPS = ['add B:1', 'add B:2', 'add X:1', 'add XX:1', 'add R:1', 'remove B:1', 'remove B',
-       'remove *:1', 'remove X:1', 'add U:1', 'remove B:*', 'remove R:1', 'add ili', 'remove XX:1']
-NQ = 8       # quick tier: the first 8 operations
+       'remove *:1', 'add BAD', 'remove X:1', 'add U:1', 'remove B:*', 'remove R:1', 'add ili', 'remove XX:1']
+NQ = 9       # quick tier: the first 9 operations
 
 
 def _pick(options, k):
@@ -59,7 +59,15 @@ def _docs():
                                   requires=[{'id': 'B', 'version': '1'}, {'id': 'Z', 'version': '9'}]),
         'X:1': docs.extension_small(p, 'X', base=('B', '1'), tag='x', btag=''),
         'XX:1': docs.extension_small(p, 'XX', base=('X', '1'), tag='y', btag='x', second=False),
+        'BAD': _bad(p),
     }
+
+
+def _bad(p):
+    # a lexicon whose last sense relation points nowhere: the add fails late, with wn.Error
+    lex = docs.lexicon_small(p, 'Z', tag='z', ili='i2', two=True)
+    lex['entries'][1]['senses'][1]['relations'] = [{'target': 'nowhere', 'relType': 'also', 'meta': None}]
+    return lex
 
 
 BASE_OF = {'X:1': 'B:1', 'XX:1': 'X:1'}
@@ -116,6 +124,12 @@ def _apply(op, installed, world):
         I.Path = _FakePath
         A._add_ili(_FakePath('ili.tsv'), ProgressHandler(message=''))
         return installed
+    if kind == 'add' and arg == 'BAD':
+        try:
+            rt.quiet_add(docs.resource([world[arg]], '1.1'))
+        except wn.Error:
+            return installed          # a failed add leaves what is installed as it was
+        return installed + ['Z:1']    # (not expected: the resource is invalid)
     if kind == 'add':
         rt.quiet_add(docs.resource([world[arg]], '1.1'))
         if arg in installed:
@@ -220,6 +234,7 @@ def h_history(k1: int, k2: int, k3: int) -> bool:
     world = _docs()
     tags = not rt.finding_open('C05-tags')
     db = rt.DB()
+    rt.eager_progress(db)
     rt.stub_normalizer()
     installed = []
     ok = True
@@ -266,12 +281,15 @@ OBLIGATIONS = [
     Ob('histories', 'h_history', parts=NPARTS, quick=dict(timeout=280), thorough=dict(timeout=2400),
        canary=[('relink-any-version', 4), ('extensions-shallow-first', NOPS + 2),
                ('skip-if-id-known', 1), ('extension-kept', NOPS + 2)],
-       functions=_F, stubs=['vf.sqlmodel', 'normalize_form = identity', 'fake ILI file'],
+       functions=_F,
+       stubs=['vf.sqlmodel', 'normalize_form = identity', 'fake ILI file',
+              'SQLite progress handler: runs in every statement (model) / every VM instruction '
+              '(replay) - its real period depends on the size of the database'],
        symbolic='the three operations of the history, each from ' + str(OPS[:NOPS]),
        bounds='all histories of 3 operations over the alphabet, from the empty database and from '
               'one that holds B:1 (partition = start state x first operation); '
               'universe: B:1, B:2, X:1 extending B:1, XX:1 extending X:1, R:1 requiring B:1 and a '
-              'lexicon that never exists, U:1 sharing ILIs, an ILI index (thorough tier: 14 '
+              'lexicon that never exists, an invalid lexicon whose add fails, U:1 sharing ILIs, an ILI index (thorough tier: 15 '
               'operations)',
        outside='histories longer than 3 operations'),
 ]
